@@ -249,6 +249,77 @@ def _check_ry_sphere_potential(ctx, ads, mat, T, r):
             return
 
 
+def ry_cylinder_lnp(L, ads, mat, T, nterms=None):
+    """Rege-Yang (AIChE J. 46 (2000) 734) cylindrical pore of radius L (nm): concentric adsorbate layers i = 1..M,
+    M = int(((2L - d_h)/d_g - 1)/2) + 1; layer 1 interacts with the wall, layer i > 1 with the enclosing adsorbate layer;
+    eps = 3/4 pi n A / d^4 [21/32 a^10 sum_k alpha_k b^2k - a^4 sum_k beta_k b^2k], b = 1 - a; averaged with the populations
+    N_i = pi / asin(d_g / ring diameter) - a core too narrow for a ring holds a single file of molecules (N = 1).
+    Series summed to convergence, or over nterms terms."""
+    dg, dh = ads["molecular_diameter"], mat["molecular_diameter"]
+    d0 = (dg + dh) / 2
+    pa, pm = ads["polarizability"] * 1e-27, mat["polarizability"] * 1e-27
+    xa, xm = ads["magnetic_susceptibility"] * 1e-27, mat["magnetic_susceptibility"] * 1e-27
+    A_gg = 1.5 * M_E * C_L**2 * pa * xa
+    A_gh = 6 * M_E * C_L**2 * pa * pm / (pa / xa + pm / xm)
+
+    def series(a):
+        b2 = (1 - a)**2
+        alpha = beta = 1.0
+        sa = sb = 1.0
+        pw = 1.0
+        for k in range(1, nterms if nterms is not None else 400000):
+            alpha *= ((-4.5 - k) / k)**2
+            beta *= ((-1.5 - k) / k)**2
+            pw *= b2
+            ta, tb = alpha * pw, beta * pw
+            sa += ta
+            sb += tb
+            if nterms is None and ta < 1e-17 * sa and tb < 1e-17 * sb:
+                break
+        return 21.0 / 32.0 * a**10 * sa - a**4 * sb
+
+    def eps(n, A, d, a):
+        return 0.75 * math.pi * n * A / (d * 1e-9)**4 * series(a)
+
+    M = int(((2 * L - dh) / dg - 1) / 2) + 1
+    N, E = [], []
+    for i in range(1, M + 1):
+        ring = 2 * (L - d0 - (i - 1) * dg)
+        N.append(math.pi / math.asin(dg / ring) if dg <= ring else 1.0)
+        if i == 1:
+            E.append(eps(mat["surface_density"], A_gh, d0, d0 / L))
+        else:
+            E.append(eps(ads["surface_density"], A_gg, dg, dg / (L - d0 - (i - 2) * dg)))
+    return N_A / (R_GAS * T) * sum(n * e for n, e in zip(N, E)) / sum(N)
+
+
+def _check_ry_cylinder_potential(ctx, ads, mat, T, r):
+    """The potential closure handed to the solver against the published Rege-Yang cylinder equation, for pores whose innermost
+    layer is a ring and for pores whose innermost layer is a single file. The library sums 25 x radius terms of the series: three
+    times the error of exactly that documented truncation is allowed (as for the Saito-Foley cylinder)."""
+    fun = _CAPTURE[-1]["fun"]
+    dg, dh = ads["molecular_diameter"], mat["molecular_diameter"]
+    d0 = (dg + dh) / 2
+    ratios = [r.uniform(1.08, 1.95)] + [r.uniform(k + 0.05, k + 0.95) for k in (2, 3, 4, 5, 6, 7)] + [r.uniform(3.05, 3.95), r.uniform(5.05, 5.95)]
+    for q in ratios:
+        L = (q * dg + dh) / 2
+        if L <= d0 * 1.02 or L > 2.0:
+            continue
+        M = int(((2 * L - dh) / dg - 1) / 2) + 1
+        core = 2 * (L - d0 - (M - 1) * dg)
+        kind = "%s-core" % ("single-file" if dg > core else "ring") if M > 1 else "one-layer"
+        got, exp = float(fun(L)), ry_cylinder_lnp(L, ads, mat, T)
+        if not (math.isfinite(got) and math.isfinite(exp)) or exp == 0:
+            continue
+        allowed = max(1e-6, 3 * abs(ry_cylinder_lnp(L, ads, mat, T, nterms=max(1, int(L * 25))) / exp - 1))
+        ctx.count("ry_cylinder_potential", "%d layer(s)/%s" % (min(M, 4), kind))
+        ctx.case(["ry-cylinder-potential", min(M, 4), kind, round(L, 1)])
+        if not close(got, exp, allowed, 1e-12):
+            ctx.violation("RY/cylinder/potential-vs-published-equation", "the potential handed to the solver is not the published Rege-Yang potential of a cylindrical pore (within three times the error of the documented truncation)",
+                          L=L, layers=M, core=kind, allowed=allowed, got=got, expected=exp, ads=ads, mat=mat, T=T)
+            return
+
+
 def _check_ry_slit_potential(ctx, ads, mat, T, r):
     """The potential closure handed to the solver against the published equations, on both sides of M = 2."""
     fun = _CAPTURE[-1]["fun"]
@@ -476,6 +547,8 @@ def _run_residual(case, ctx):
         _check_hk_cylinder_potential(ctx, ads, mat, T, r)
     if model.startswith("RY") and geo == "sphere":
         _check_ry_sphere_potential(ctx, ads, mat, T, r)
+    if model.startswith("RY") and geo == "cylinder":
+        _check_ry_cylinder_potential(ctx, ads, mat, T, r)
     factor = 1.0 if (geo == "slit" or model.startswith("RY")) else 2.0
     if model.startswith("RY") and geo != "slit":
         factor = 2.0
@@ -514,8 +587,16 @@ def _run_routing(case, ctx):
     n = r.randint(5, 10)
     p = numpy.array(gen.increasing(r, n, 1e-6, 0.15, log=True))
     loading = numpy.cumsum(numpy.array([r.uniform(0.05, 1.0) for _ in range(n)]))
-    iso = pygaps.PointIsotherm(pressure=list(p), loading=list(loading), branch="ads", material="verif-c17", adsorbate="nitrogen", pressure_mode="relative", pressure_unit=None,
-                               **dict({k: v for k, v in gen.DEFAULT_UNITS.items() if not k.startswith("pressure")}, **gen.temp_kw(T)))
+    if case["seed"] % 2 == 1 and not lookup:
+        # recorded in percent of the saturation pressure: "the corresponding relative pressure" is a hundredth of the stored number
+        stored = p * 100.0
+        p = stored / 100.0
+        iso = pygaps.PointIsotherm(pressure=list(stored), loading=list(loading), branch="ads", material="verif-c17", adsorbate="nitrogen", pressure_mode="relative%", pressure_unit=None,
+                                   **dict({k: v for k, v in gen.DEFAULT_UNITS.items() if not k.startswith("pressure")}, **gen.temp_kw(T)))
+        ctx.count("routing", "stored-in-relative-percent")
+    else:
+        iso = pygaps.PointIsotherm(pressure=list(p), loading=list(loading), branch="ads", material="verif-c17", adsorbate="nitrogen", pressure_mode="relative", pressure_unit=None,
+                                   **dict({k: v for k, v in gen.DEFAULT_UNITS.items() if not k.startswith("pressure")}, **gen.temp_kw(T)))
     a = pygaps.Adsorbate.find("nitrogen")
     adsd = dict(ads, liquid_density=a.liquid_density(T), adsorbate_molar_mass=a.molar_mass())
     res = _call(pm.psd_microporous, iso, psd_model=model, pore_geometry=geo, material_model=mat_arg, adsorbate_model=None if lookup else adsd, p_limits=(None, None))
